@@ -20,9 +20,18 @@ pub struct Event {
 }
 
 thread_local! {
+	static NEXT_ID: std::cell::Cell<usize> = const { std::cell::Cell::new(1) };
 	static SINK: RefCell<Option<Vec<Event>>> = const { RefCell::new(None) };
 }
 
+/// Unique identity for a memo-carrying allocation (addresses may be reused after a free)
+pub fn next_id() -> usize {
+	NEXT_ID.with(|n| {
+		let v = n.get();
+		n.set(v + 1);
+		v
+	})
+}
 /// Start recording on this thread
 pub fn install() {
 	SINK.with_borrow_mut(|s| *s = Some(Vec::new()));
